@@ -121,10 +121,36 @@ func asmEffect(in asmInstr) asmRW {
 	return rw
 }
 
-// helperContract: registers a JMP-entered helper expects to be defined on entry.
-var helperContract = map[string][]string{
-	"decCpy":    {"R8", "R10", "SI", "DI"},
-	"decCpyInv": {"R8", "R10", "SI"},
+// helperContract: registers a JMP-entered helper (a TEXT without a Go declaration) expects to be
+// defined on entry. Derived from the helper itself by asmContracts: its upward-exposed reads.
+var helperContract = map[string][]string{}
+
+// asmContracts derives the register contract of every helper TEXT (no "·" in the name: not
+// callable from Go, entered by JMP): the registers it reads before writing them.
+func asmContracts(f *asmFile) {
+	helperContract = map[string][]string{}
+	for _, t := range f.texts {
+		if strings.Contains(t.name, "·") {
+			continue
+		}
+		helperContract[t.name] = nil
+		bad, _, _ := asmDefUse(t)
+		set := map[string]bool{}
+		for _, b := range bad {
+			if i := strings.Index(b, " reads "); i >= 0 {
+				r := strings.SplitN(b[i+7:], ",", 2)[0]
+				if asmRegs[r] {
+					set[r] = true
+				}
+			}
+		}
+		var regs []string
+		for r := range set {
+			regs = append(regs, r)
+		}
+		sort.Strings(regs)
+		helperContract[t.name] = regs
+	}
 }
 
 type regSet map[string]bool
